@@ -32,6 +32,8 @@ type Scen struct {
 	Dead   bool
 	Cfg    map[string]interface{}
 	mon    *monitor
+	// ForceInterrupt >= 0: the kind of interruption of every rebuild of this case (else it follows from worker and cycle)
+	ForceInterrupt int
 }
 
 func (s *Scen) Fail(props []string, sig, what string) {
@@ -116,7 +118,9 @@ func (s *Scen) inconclusive(f string, a ...interface{}) {
 				continue // something else is going on in this volume; the loop may be a consequence of that
 			}
 			if msg, n := fatalLoop(p.Log); n >= 3 {
-				s.Fail([]string{"C07", "C12", "C08"}, "replica-restart-loop:"+msg, fmt.Sprintf("replica %d ended %d times in a row with the same fatal error and never rejoined: %s; then: %s", p.Idx, n, msg, fmt.Sprintf(f, a...)))
+				// C12 ("every member has its data and metadata file", "reopening reproduces the chain") and C08 (the directory
+				// can be reopened after a process death); C07 promises only that such a replica serves no reads
+				s.Fail([]string{"C12", "C08"}, "replica-restart-loop:"+msg, fmt.Sprintf("replica %d ended %d times in a row with the same fatal error and never rejoined: %s; then: %s", p.Idx, n, msg, fmt.Sprintf(f, a...)))
 				return
 			}
 		}
@@ -593,7 +597,7 @@ func RunRebuild(s *Scen, r *vk.Rand, a, b int, bin, base string, cycles int) {
 		} else if s.Prop == "C05" && cyc == 0 {
 			how = "stop"
 		}
-		if (s.Prop == "C07" || s.Prop == "C12") && (s.Case/100+cyc)%3 == 2 {
+		if (s.Prop == "C07" || s.Prop == "C12") && (s.Case/100+cyc)%3 == 2 && s.ForceInterrupt < 0 {
 			how = "snapkill"
 		}
 		if how == "shortstop" {
@@ -728,6 +732,9 @@ func RunRebuild(s *Scen, r *vk.Rand, a, b int, bin, base string, cycles int) {
 		time.Sleep(time.Duration(r.Range(0, 500)) * time.Millisecond)
 		// restart; optionally interrupt the rebuild once
 		interrupt := (s.Case/100 + cyc*5) % 9 // every kind of interruption occurs across the workers of a run
+		if s.ForceInterrupt >= 0 {
+			interrupt = s.ForceInterrupt
+		}
 		if (interrupt == 8 || (s.Case/100+cyc)%5 == 4) && s.Prop != "C04" && how != "snapkill" {
 			// a replacement: the pod comes back on another node with an empty directory and has to receive the whole chain
 			if !x.Alive() {
